@@ -5,6 +5,7 @@ import (
 	"fmt"
 	"sort"
 	"strings"
+	"sync"
 	"time"
 
 	"github.com/bfenetworks/bfe/bfe_http"
@@ -90,6 +91,28 @@ type c51Mod struct {
 	must []string
 }
 
+// c51Shapes counts, per module:shape, the reference verdicts and what bfe did
+// (written to the evidence file as coverage.shapes).
+var (
+	c51ShapesMu sync.Mutex
+	c51Shapes   = map[string]map[string]int{}
+)
+
+func c51ShapeCount(mod, shape, want string, admitted bool) {
+	c51ShapesMu.Lock()
+	defer c51ShapesMu.Unlock()
+	k := mod + ":" + shape
+	if c51Shapes[k] == nil {
+		c51Shapes[k] = map[string]int{}
+	}
+	c51Shapes[k]["want_"+want]++
+	if admitted {
+		c51Shapes[k]["admitted"]++
+	} else {
+		c51Shapes[k]["rejected"]++
+	}
+}
+
 func c51Mods() []*c51Mod {
 	return []*c51Mod{c51BasicMod(), c51JwtMod(), c51SlinkMod(), c51BlockMod()}
 }
@@ -109,6 +132,7 @@ func c51Verdict(r *vkit.Run, w *c51Witness, want string, obs c51Obs, admitted, r
 	default:
 		r.Count(mod+"_rejected", 1)
 	}
+	c51ShapeCount(mod, w.Shape, want, admitted)
 	switch want {
 	case c51Either:
 		r.Count(mod+"_not_judged", 1)
@@ -196,7 +220,7 @@ func c51(r *vkit.Run) {
 		"jwt: valid HS/RS/PS/ES tokens, alg=none (with/without signature, 2 parts), HS* signed with the RSA/EC public key bytes (PEM/DER/JWK/modulus), alg differing from the key's declared alg, sibling alg on an undeclared key, wrong/foreign/cross-rule key, truncated/extended/bit-flipped/zero/empty/DER signature, payload or header altered after signing, expired, not-yet-valid, exp 0 / non-numeric exp+nbf, duplicated claims and header members, non-JSON payload/header, unknown/lower-case/non-string/missing alg, 1/2/4/5-part tokens, padded segments, Authorization shapes. Time claims are >= 1 h away from now. " +
 		"securelink: valid, wrong/one-char/truncated/padded/std-alphabet/hex/case-flipped checksum, missing/empty checksum or expires, expired, non-numeric expires, node omitted/reordered, node value or expiry changed after signing, other secret, duplicate checksum parameter, link built by the documented procedure for a uri-node rule, uncovered host. " +
 		"block: Accept with client addresses at every range boundary +-1 (4- and 16-byte IPv4, IPv6), requests against first-match global-then-product rule lists. " +
-		"Oracle per request: admit / reject(with the documented rejection) / not judged (valid credential in a non-canonical encoding, duplicate parameters or members where the RFC allows either, future iat). Excluded because the docs are silent: rule order among overlapping conditions of the auth modules (conditions are disjoint), kid matching, JWK private keys, null/array JWT payloads, trailing bytes after the claims object, time claims beyond int64, omitted ChecksumKey/ExpiresKey, expires with sign/overflow, ip ranges starting at 0.0.0.0 or :: (C19). Non-trivial = request reached the module handler with a covering rule (or an Accept decision); distinct = (module, cfg seed, request bytes / client address)")
+		"Oracle per request: admit / reject(with the documented rejection) / not judged (valid credential in a non-canonical encoding, duplicate parameters or members where the RFC allows either, future iat). Excluded because the docs are silent: rule order among overlapping conditions of the auth modules (conditions are disjoint), kid matching, JWK private keys, null/array JWT payloads, trailing bytes after the claims object, time claims beyond int64, omitted ChecksumKey/ExpiresKey, expires with sign/overflow, ip ranges starting at 0.0.0.0 or :: (C19). Non-trivial = request reached the module handler with a covering rule (or an Accept decision); distinct = (module, cfg seed, request bytes / client address; for jwt the case recipe, because PSS/ECDSA signatures are randomized)")
 	r.Assume("std crypto (md5, sha1, hmac, rsa, ecdsa) and golang.org/x/crypto/bcrypt are correct; bcrypt is also what the library under bfe uses, so bcrypt cases check the dispatch, not the primitive")
 	r.Assume("apr1-MD5 reference written here from the Apache apr_md5 algorithm and checked against the documented vector user1:123456")
 	r.Assume("condition primitives req_host_in / req_path_in / req_cip_range behave as documented for exact lower-case hosts, exact paths and in-range addresses (other properties)")
@@ -263,6 +287,9 @@ func c51(r *vkit.Run) {
 			}
 		}
 	}
+	c51ShapesMu.Lock()
+	r.Extra("shapes", c51Shapes)
+	c51ShapesMu.Unlock()
 	var missing []string
 	for _, m := range mods {
 		for _, c := range append([]string{m.name + "_admitted", m.name + "_rejected", m.name + "_expect_admit", m.name + "_expect_reject"}, m.must...) {
